@@ -3,6 +3,7 @@ package props
 
 import (
 	"cmp"
+	"encoding/json"
 	"fmt"
 	"math"
 	"sort"
@@ -275,6 +276,40 @@ func floatKey(i int) float64 {
 		return math.Inf(-1)
 	}
 	return float64(i-2) * 0.75
+}
+
+// PJ is an element type whose JSON hooks are declared on the POINTER receiver:
+// encoding/json only finds them on addressable values (the elements of a slice
+// are, a copy taken out of a node is not).
+type PJ struct{ C int }
+
+func (p *PJ) MarshalJSON() ([]byte, error) { return []byte(fmt.Sprintf("\"%dC\"", p.C)), nil }
+
+func (p *PJ) UnmarshalJSON(b []byte) error {
+	var s string
+	if err := json.Unmarshal(b, &s); err != nil {
+		return err
+	}
+	if !strings.HasSuffix(s, "C") {
+		return fmt.Errorf("not a temperature: %q", s)
+	}
+	_, err := fmt.Sscanf(s, "%dC", &p.C)
+	return err
+}
+
+func PJDom(n int) *Dom[PJ] {
+	byC := func(a, b PJ) int { return cmp.Compare(a.C, b.C) }
+	d := &Dom[PJ]{Name: "pointer-receiver-json", Fmt: func(v PJ) string { return fmt.Sprintf("%dC", v.C) }}
+	d.Cmps = []NamedCmp[PJ]{{"natural", byC}, {"reversed", func(a, b PJ) int { return byC(b, a) }},
+		{"coarse12", func(a, b PJ) int { return cmp.Compare(floorDiv(a.C, 12), floorDiv(b.C, 12)) }},
+		{"natural-unnormalised", func(a, b PJ) int { return scale(byC(a, b), uint64(a.C)^uint64(b.C)) }}}
+	for i := 0; i < n; i++ {
+		d.Alpha = append(d.Alpha, PJ{i * 6})
+		d.Probe = append(d.Probe, PJ{i*6 + 3})
+	}
+	d.Probe = append(d.Probe, PJ{-3}, PJ{n*6 + 50})
+	d.Wide = func(r *core.R) PJ { return PJ{r.Intn(1<<20) * 6} }
+	return d
 }
 
 // TK is a string-kinded key type that writes and reads itself as JSON text
